@@ -70,6 +70,9 @@ func oddJournals() []string {
 			}
 			return b.String()
 		}() + "\n2020-01-02 close Assets:A\n",
+		// prices with more decimals than the 8 the valuation arithmetic keeps, tiny prices, valued both ways
+		"2020-01-01 open Assets:A\n2020-01-01 open Equity:Equity\n\n2020-01-01 price SHIB 0.0000000123 CHF\n2020-01-01 price ETH 1234.567891234567 CHF\n2020-01-03 price DUST 0.000000004 ETH\n\n2020-01-02 \"x\"\nEquity:Equity Assets:A 5 CHF\nEquity:Equity Assets:A 1000000 SHIB\nEquity:Equity Assets:A 2 ETH\n\n2020-01-04 \"y\"\nEquity:Equity Assets:A 7 DUST\n",
+		"2020-01-01 open Assets:A\n2020-01-01 open Equity:Equity\n\n2020-01-01 price USD 0.912345678901 CHF\n2020-01-01 price CHF 1.0000000001 EUR\n\n2020-01-02 \"x\"\nEquity:Equity Assets:A 100 USD\nEquity:Equity Assets:A 100 EUR\n",
 	}
 	return js
 }
